@@ -6,7 +6,8 @@
 
    Structure:
      1. bridge between the two machine-integer semantics (TypesModel.prim/iwrap vs Rint.arith/wrap);
-     2. for ANY row r and macro arguments p that say the same ([args_match]): g_f c p fuel x = hand f c r x,
+     2. for ANY well-formed row r ([facts], TypesProofs.v) and macro arguments p that say the same ([args_match]):
+        g_f c p fuel x = hand f c r x,
         one lemma per generated function (these are the lemmas that stop compiling when a macro body
         changes its meaning: lib/props/c15.py names the first one that fails);
      3. the generated instantiation [gen_ops] is, by conversion, what the table says the macros expand to
@@ -122,7 +123,8 @@ Ltac use_match H :=
   rewrite <- ?He, <- ?Hmn, <- ?Hmx, <- ?Ht;
   rewrite ?p_add_prim, ?p_sub_prim, ?p_mul_prim, ?p_neg_prim; rewrite <- ?Hr.
 
-(* case analysis on every comparison in the goal; arithmetic side conditions by lia *)
+(* case analysis on every comparison in the goal; branches that cannot both be taken (v > MAX and v < MIN, ...)
+   and arithmetic side conditions by lia, which sees the linear facts of a well-formed row *)
 Ltac split_cmp :=
   repeat match goal with
   | |- context [Z.gtb ?a ?b] => destruct (Z.gtb_spec a b)
@@ -135,9 +137,16 @@ Ltac split_cmp :=
 Section Generic.
   Variables (r : row) (p : margs).
   Hypothesis Hm : args_match r p.
+  (* MIN <= 0 <= MAX, TOTAL = MAX - MIN + 1, [MIN - TOTAL, MAX + TOTAL] inside the Rep: used only to discard
+     impossible combinations of comparisons, so that a harmless reordering of the tests in a macro body
+     does not break the equivalence *)
+  Hypothesis HF : facts r.
 
   Lemma g_new_eq c fuel v : g_new c p fuel v = ret (new r v).
-  Proof. unfold g_new, new, ret. use_match Hm. split_cmp. Qed.
+  Proof.
+    destruct HF as [_ _ Hspan _ Hmn Hmx Hlo Hhi _].
+    unfold g_new, new, ret. use_match Hm. split_cmp.
+  Qed.
 
   Lemma g_new_unchecked_eq c fuel v : g_new_unchecked c p fuel v = ret v.
   Proof. reflexivity. Qed.
@@ -147,7 +156,10 @@ Section Generic.
 
   Lemma g_wrap_overflow_once_eq c fuel v :
     g_wrap_overflow_once c p fuel v = Some (wrap_overflow_once c r v).
-  Proof. unfold g_wrap_overflow_once, wrap_overflow_once, ret. use_match Hm. split_cmp. Qed.
+  Proof.
+    destruct HF as [_ _ Hspan _ Hmn Hmx Hlo Hhi _].
+    unfold g_wrap_overflow_once, wrap_overflow_once, ret. use_match Hm. split_cmp.
+  Qed.
 
   (* the two `while` loops: fuelled iteration of the generated condition/body = the hand model's loops *)
   Lemma while_down_eq c t mx tot fuel : forall v,
@@ -339,21 +351,21 @@ Definition ops_agree_any_fuel (r : row) (o : gops) : Prop :=
     end /\
     Forall2 (fun s gf => forall v, snd gf c fuel v = ret (from_src r s v)) (froms r) (o_froms o).
 
-Lemma ops_of_row_agree tbl r o : ops_of_row tbl r = Some o -> ops_agree_any_fuel r o.
+Lemma ops_of_row_agree tbl r o : facts r -> ops_of_row tbl r = Some o -> ops_agree_any_fuel r o.
 Proof.
-  unfold ops_of_row. destruct (args_of_row r) as [p|] eqn:Ea; [|discriminate].
+  intros HF. unfold ops_of_row. destruct (args_of_row r) as [p|] eqn:Ea; [|discriminate].
   destruct (all_some (map (from_of tbl p) (froms r))) as [fs|] eqn:Ef; [|discriminate].
   intros H. injection H as <-. pose proof (args_of_row_match r p Ea) as Hm.
   split; [exact Hm|]. intros c fuel. cbn [o_new o_wrap_once o_wrap o_from_rep o_add o_sub o_mul o_neg o_froms].
-  split; [intros v; apply g_new_eq; exact Hm|].
-  split; [intros v; apply g_wrap_overflow_once_eq; exact Hm|].
-  split; [intros v; apply g_wrap_overflow_eq; exact Hm|].
-  split; [intros v; apply g_from_rep_eq; exact Hm|].
-  split; [intros a b; apply g_add_eq; exact Hm|].
-  split; [intros a b; apply g_sub_eq; exact Hm|].
-  split; [intros a b; apply g_mul_eq; exact Hm|].
+  split; [intros v; apply g_new_eq; assumption|].
+  split; [intros v; apply g_wrap_overflow_once_eq; assumption|].
+  split; [intros v; apply g_wrap_overflow_eq; assumption|].
+  split; [intros v; apply g_from_rep_eq; assumption|].
+  split; [intros a b; apply g_add_eq; assumption|].
+  split; [intros a b; apply g_sub_eq; assumption|].
+  split; [intros a b; apply g_mul_eq; assumption|].
   split.
-  - destruct (has_neg r); [split; [reflexivity|intros a; apply g_neg_eq; exact Hm] | reflexivity].
+  - destruct (has_neg r); [split; [reflexivity|intros a; apply g_neg_eq; assumption] | reflexivity].
   - apply (all_some_Forall2 (from_of tbl p)); [|exact Ef].
     intros s gf Hs v. apply (from_of_eq tbl r p s gf Hm Hs).
 Qed.
@@ -371,7 +383,7 @@ Lemma gen_ops_agree_any_fuel : forall i r, nth_error types_table i = Some r ->
   exists o, nth_error gen_ops i = Some o /\ ops_agree_any_fuel r o.
 Proof.
   intros i r H. destruct (nth_gen_ops i r H) as (o & Ho & Hr).
-  exists o. split; [exact Ho | exact (ops_of_row_agree _ _ _ Hr)].
+  exists o. split; [exact Ho | apply (ops_of_row_agree types_table); [apply table_facts, (nth_error_In _ _ H) | exact Hr]].
 Qed.
 
 (* ---- 4. the out-of-fuel case is excluded: [fuel_args] suffices for every value of the Rep ---- *)
